@@ -214,7 +214,7 @@ def sanitize(sig):
 
 
 def write_replay(prop, sig, ent, tier, seed, kind="property"):
-    d = os.path.join(VERIF, "replays", prop)
+    d = os.path.join(os.environ.get("VERIF_REPLAY_DIR") or os.path.join(VERIF, "replays"), prop)
     os.makedirs(d, exist_ok=True)
     path = os.path.join(d, sanitize(sig) + ".json")
     with open(path, "w") as f:
@@ -338,7 +338,7 @@ def main(argv=None):
     for sig in known:
         if sig not in report.fail:
             sys.stderr.write("[%s] note: known finding %s was not observed in this run\n" % (prop, sig))
-    if mod is not None:
+    if mod is not None and not os.environ.get("VERIF_NO_EVIDENCE"):
         try:
             write_evidence(prop, mod, ctx, report, wall, violations, known_seen)
         except Exception:
